@@ -2,7 +2,7 @@
 
 Explicit-state breadth-first search over operation histories, executed on the real
 TreeRoutingTable / KBucket / PeerManager under the virtual loop (loop time is virtual, the liveness probe
-is a coroutine whose outcome is part of the operation).  Three parts:
+is a coroutine whose outcome is part of the operation).  Four parts:
 
   S  scaled K in {2, 3} (constants.K patched, KBucket replaced by a subclass that reads the capacity at
      run time), level-synchronous BFS with canonical-state hashing; the frontier of every level is
@@ -12,6 +12,12 @@ is a coroutine whose outcome is part of the operation).  Three parts:
   R  real K = 8: a default fill history (5 prefix classes, 32 adds), every history within d single-operation
      edits of it (d = 1 quick, 2 thorough) and the scaled counterexamples lifted to K = 8; the full oracle
      after every operation.
+  P  second operation at the probe suspension point (K = 2): add_peer(newcomer) is held inside probe(to_replace)
+     (the probe awaits a Future the harness owns); one complete second operation runs meanwhile (add of every
+     alphabet contact incl. new ids at the newcomer's address and the newcomer itself, probe alive / timeout;
+     remove of every member, incl. the probed contact), then the probe answers alive / timeout / remote error
+     and the final table is judged by the structural invariant.  Kinds the unchanged tree violates in this
+     family (P_OBSERVE_ONLY) are tallied, not reported.
 
 A state is the history that reaches it: every frontier history is replayed from scratch on fresh real objects
 (and must reproduce the canonical digest under which it was discovered); its successors are computed on deep
@@ -1043,7 +1049,7 @@ def scaled_configs(ctx):
 # part P: a second operation at the probe suspension point of add_peer
 
 # kinds the unchanged tree is known to violate inside this family: tallied as observations, never reported
-P_OBSERVE_ONLY = ()
+P_OBSERVE_ONLY = ('exception',)   # stale bucket_index after a join during the probe -> IndexError (unchanged tree)
 P_SETUPS = [
     [('add', 0, 'a'), ('add', 1, 'a'), ('add', 3, 'a')],                     # [c3] [c0 c1]: far bucket full
     [('add', 0, 'a'), ('add', 1, 'a'), ('add', 3, 'a'), ('add', 7, 'a')],   # near half holds two contacts
@@ -1225,7 +1231,10 @@ def _run(ctx, scratch):
     chunk = 16 if ctx.quick else 40
     state = {}
     gtables = collections.defaultdict(set)     # (K, own id) -> table configurations already given to part Q
+    import time
+    t_p = time.process_time()
     probe_window_family(res)
+    t_p = round(time.process_time() - t_p, 2)
     for ci, cfg in enumerate(cfgs):
         ex = Exec(cfg['K'], cfg['own'], cfg_contacts(cfg))
         fd, td = ex.digests()
@@ -1369,10 +1378,14 @@ def _run(ctx, scratch):
               'own id). traces = one per transition (prefix shared through deep copies of the real objects); '
               'scratch_replays counts the from-scratch replays.'),
         exhaustive=True,
-        bounds={'scaled_depth': {c['name']: c['depth'] for c in cfgs}, 'real_K8': real_meta},
+        bounds={'scaled_depth': {c['name']: c['depth'] for c in cfgs}, 'real_K8': real_meta,
+                'probe_window': {'K': 2, 'own_ids': 2, 'setups': len(P_SETUPS), 'second_ops': 1,
+                                 'probe_outcomes': 3, 'observe_only_kinds': list(P_OBSERVE_ONLY),
+                                 'cpu_seconds': t_p}},
         bound_completed={'per_config': per_cfg, 'real_K8': real_meta},
         assumptions=[
-            'routing-table operations are sequential (KademliaProtocol serialises them under _split_lock); '
+            'routing-table operations are sequential (KademliaProtocol serialises them under _split_lock), except '
+            'in part P where exactly one complete operation runs while one add_peer is suspended in its probe; '
             'the probe is a coroutine that suspends once and then answers alive / TimeoutError / RemoteException '
             'for whichever contact is pinged',
             'liveness reports are issued only for addresses that currently have a table member',
